@@ -3,7 +3,7 @@
 (* C08: requests built by the request builders and by the Sidetree client  *)
 (* from valid inputs are accepted and yield what the caller asked for.     *)
 (*                                                                         *)
-(* A lifecycle create -> update* -> recover -> update* -> deactivate with  *)
+(* A lifecycle create -> (update | recover)* -> deactivate with            *)
 (* key rotation.  The state is what the caller expects the resolved state  *)
 (* to be: the document (Composer's abstract documents and per-action       *)
 (* semantics), the keys behind the pending update / recovery commitments,  *)
@@ -11,6 +11,8 @@
 (* call; the refusals the builders owe the caller are actions too.         *)
 (***************************************************************************)
 EXTENDS Composer
+
+CONSTANT RepeatRecover     \* a DID may be recovered more than once (FALSE bounds the enumerated lifecycles)
 
 VARIABLES upd, rec, deact, ao, nk, phase, updAlg, recAlg
 cvars == <<doc, len, hist, upd, rec, deact, ao, nk, phase, updAlg, recAlg>>
@@ -78,8 +80,9 @@ Update(u, w, alg) ==
     /\ len' = len + 1
     /\ UNCHANGED <<rec, deact, ao, phase, recAlg>>
 
+\* (a DID may be recovered more than once)
 Recover(d, a, w, alg) ==
-    /\ phase = "created" /\ len < MaxLen
+    /\ (phase = "created" \/ (RepeatRecover /\ phase = "recovered")) /\ len < MaxLen
     /\ doc' = IF Effective(w) THEN d ELSE EmptyDoc
     /\ upd' = nk + 1 /\ rec' = nk + 2 /\ nk' = nk + 2 /\ ao' = a
     /\ phase' = "recovered" /\ updAlg' = alg /\ recAlg' = alg
